@@ -42,7 +42,7 @@ def parseURL? (tok : String) : Option URL :=
 def showU (u : URL) : String :=
   if u.host ≠ [] then "T" ++ String.ofList u.toText
   else "C" ++ "|".intercalate [String.ofList u.scheme, String.ofList u.user, String.ofList u.pass, toString u.port,
-    String.ofList u.pathText, String.ofList u.query, String.ofList u.fragment]
+    String.ofList u.pathText, String.ofList (queryText u.query), String.ofList u.fragment]
 
 def parseAll? : List String → Option (List URL)
   | [] => some []
